@@ -182,7 +182,7 @@ func Mutate(repo, prop string, jobs, max int, seed int) (MutationSummary, error)
 	ctx := an.NewCtx(p, prop, "mutate")
 	func() {
 		defer func() { recover() }()
-		r.Run(ctx)
+		rules.Execute(r, ctx)
 	}()
 	base := map[string]bool{}
 	for _, o := range ctx.Obls {
